@@ -148,6 +148,20 @@ theorem routeMatch_correct (re : Regex) (sem : Semantics) (m : HTTPMatch) (req :
   rw [hH, hW, hQ]
   simp only [Bool.and_assoc]
 
+theorem all_perm {α : Type} (f : α → Bool) (l l' : List α) (h : l.Perm l') : l.all f = l'.all f := by
+  rw [Bool.eq_iff_iff, List.all_eq_true, List.all_eq_true]
+  exact ⟨fun hh x hx => hh x (h.mem_iff.mpr hx), fun hh x hx => hh x (h.mem_iff.mp hx)⟩
+
+/-- The order of header and query-parameter matchers is semantically irrelevant (conjunction): the
+    header sort of `TranslateRouteMatch` and the Go map order of query parameters only matter for
+    byte-level determinism (C17), not for where a request goes. -/
+theorem matcher_order_irrelevant (re : Regex) (m : RouteMatch) (hs : List HeaderMatcher) (qs : List QueryMatcher)
+    (req : Request) (hh : m.headers.Perm hs) (hq : m.query.Perm qs) :
+    ({ m with headers := hs, query := qs } : RouteMatch).eval re req = m.eval re req := by
+  unfold RouteMatch.eval
+  simp only
+  rw [all_perm _ _ _ hh, all_perm _ _ _ hq]
+
 /-- A nil match (rule without `match`) accepts every well-formed request. -/
 theorem routeMatch_nil (re : Regex) (sem : Semantics) (req : Request) (hwf : req.wf = true) :
     (translateRouteMatch sem none).eval re req = true := by
